@@ -306,6 +306,26 @@ impl Property for C14 {
                     Err(e) => fail!("many-packs-unreadable", "{e}"),
                 };
                 verify_container(&c, &model, "many-packs:")?;
+                // the manifest pack opened on its own: the free data of every pack, by id and by uuid
+                {
+                    let err = |e: jbk::Error| Failure::new("many-packs-unreadable", format!("manifest pack: {e}"));
+                    let cp = jbk::tools::open_pack(path.as_std_path()).map_err(err)?;
+                    let r = cp.get_manifest_pack_reader().map_err(err)?.ok_or_else(|| Failure::new("many-packs-unreadable", "no manifest pack found in the file"))?;
+                    let m = jbk::reader::ManifestPack::new(r).map_err(err)?;
+                    ensure!(m.get_pack_infos().len() == *packs as usize, "manifest-pack-list", "the manifest lists {} content packs, {packs} were declared", m.get_pack_infos().len());
+                    for (k, pi) in m.get_pack_infos().iter().enumerate() {
+                        let want = format!("free-data-of-pack-{k:05}").into_bytes();
+                        ensure!(pi.pack_id.into_u16() == k as u16 + 1, "manifest-pack-list", "content pack #{k} is listed with id {}", pi.pack_id.into_u16());
+                        let by_id = m.get_pack_free_data(pi.pack_id).map_err(err)?.map(|b| b.to_vec());
+                        let by_uuid = m.get_pack_free_data_uuid(pi.uuid).map_err(err)?.map(|b| b.to_vec());
+                        ensure!(by_id.as_deref() == Some(&want[..]), "manifest-free-data", "get_pack_free_data(pack {}) = {:?}, given {:?}", k + 1, by_id.map(|b| String::from_utf8_lossy(&b).to_string()), String::from_utf8_lossy(&want));
+                        ensure!(by_uuid.as_deref() == Some(&want[..]), "manifest-free-data", "get_pack_free_data_uuid(pack {}) = {:?}, given {:?}", k + 1, by_uuid.map(|b| String::from_utf8_lossy(&b).to_string()), String::from_utf8_lossy(&want));
+                        ensure!(m.get_content_pack_info_uuid(pi.uuid).map(|p| p.pack_id) == Some(pi.pack_id), "manifest-pack-list", "get_content_pack_info_uuid of pack {} names another pack", k + 1);
+                    }
+                    let d0 = m.get_pack_free_data(jbk::PackId::from(0)).map_err(err)?.map(|b| b.to_vec());
+                    ensure!(d0.as_deref() == Some(&b""[..]), "manifest-free-data", "get_pack_free_data(directory pack) = {d0:?}, nothing was given");
+                    info.evals += 3 * *packs as u64;
+                }
                 info.nontrivial = true;
                 info.key = hash_str(&format!("many{packs}{comp:?}"));
                 Ok(info)
